@@ -169,6 +169,36 @@ pub fn run(r: &mut Report) {
             }
         }
     }
+    // key descriptions: every (material, declared scheme) pair - known schemes, and unknown scheme names that spell a known one or
+    // something else - is a different key: different JSON form, different id, and a layout listing one instead of the other
+    // has different signed bytes
+    {
+        use in_toto::crypto::{PublicKey, SignatureScheme as S};
+        let mut keys: Vec<(String, PublicKey)> = vec![];
+        for (mat, file) in [("ed25519", "ed25519/ed25519-1.spki.der"), ("rsa", "rsa/rsa-2048.spki.der"), ("ecdsa", "ecdsa/ec.spki.der")] {
+            let der = match std::fs::read(format!("/repo/tests/{}", file)) { Ok(d) => d, Err(_) => continue };
+            for sch in [S::Ed25519, S::RsaSsaPssSha256, S::RsaSsaPssSha512, S::EcdsaP256Sha256, S::Unknown("rsassa-pss-sha256".into()), S::Unknown("rsassa-pss-sha512".into()),
+                        S::Unknown("ed25519".into()), S::Unknown("ecdsa-sha2-nistp256".into()), S::Unknown("x".into()), S::Unknown("".into())] {
+                if let Ok(Ok(k)) = no_panic(|| PublicKey::from_spki(&der, sch.clone())) { keys.push((format!("{} declared {:?}", mat, sch), k)); }
+            }
+        }
+        let mut bad: Vec<String> = vec![];
+        let forms: Vec<(String, String, Vec<u8>, bool)> = keys.iter().map(|(n, k)| {
+            let js = serde_json::to_string(k).unwrap_or_default();
+            let back_equal = serde_json::from_str::<PublicKey>(&js).map(|b| &b == k && b.key_id() == k.key_id()).unwrap_or(false);
+            let lay = MetadataWrapper::Layout(LayoutMetadataBuilder::new().expires(chrono::TimeZone::with_ymd_and_hms(&chrono::Utc, 2030, 1, 1, 0, 0, 0).unwrap()).add_key(k.clone()).build().unwrap());
+            (n.clone(), js, lay.to_bytes().unwrap_or_default(), back_equal) }).collect();
+        for i in 0..keys.len() {
+            let _ = forms[i].3;   // (reading back mismatched material / scheme pairs is not demanded; supported pairs are read back in the C12 witnesses)
+            for j in 0..i {
+                if keys[i].1 == keys[j].1 { continue; }
+                if (forms[i].1 == forms[j].1 || keys[i].1.key_id() == keys[j].1.key_id() || forms[i].2 == forms[j].2) && bad.len() < 5 {
+                    bad.push(format!("{} and {} are different keys but share json={} id={} layout_bytes={}", forms[i].0, forms[j].0, forms[i].1 == forms[j].1, keys[i].1.key_id() == keys[j].1.key_id(), forms[i].2 == forms[j].2));
+                }
+            }
+        }
+        r.case("key-descriptions-injective", json!({"keys": keys.len()}), "different (material, scheme) pairs: different JSON, id and layout bytes", format!("{:?}", bad), bad.is_empty() && keys.len() >= 20);
+    }
     r.case("generated-signed-bytes-deterministic", json!({"documents": n_docs, "seed": seed}), "the same bytes every time", format!("{:?}", det_bad), det_bad.is_empty());
     r.case("generated-signed-bytes-injective", json!({"documents": n_docs, "distinct_values": distinct, "edited_neighbours_compared": neighbours, "seed": seed}), "different values never share signed bytes", format!("{:?}", inj_bad), inj_bad.is_empty() && distinct > n_docs / 4 && neighbours > n_docs / 2);
     r.case("generated-wire-identity", json!({"documents": (n_docs + 2) / 3, "layouts": 4, "seed": seed}), "read back equal and verified, for every writer", format!("{:?}", wire_bad), wire_bad.is_empty());
